@@ -633,7 +633,8 @@ pub fn generate(seed: u64) -> Scenario {
     let nstreams = *rng.pick(&[1usize, 1, 1, 2, 3]);
     let mut streams = vec![];
     for _ in 0..nstreams {
-        let target = *rng.pick(&[0usize, 1, 6, 12, 24, 24, 48, 48, 96, 200]);
+        // mostly short; now and then past the sizes at which implementations switch strategy
+        let target = *rng.pick(&[0usize, 1, 6, 12, 24, 24, 48, 48, 96, 200, 300, 1100]);
         let (mut h, _) = gen::gen_haystack(&mut rng, &spec, target);
         if target == 0 {
             h.clear();
